@@ -252,7 +252,6 @@ fn fixed_probes_base() -> Vec<(&'static str, String, &'static [&'static str])> {
         ("collections::Vec is not Sync", p("fn main() { is_sync::<BVec<'static, u8>>(); }"), &["E0277"]),
         ("ChunkRawIter is not Send", p("fn main() { is_send::<bumpalo::ChunkRawIter<'static>>(); }"), &["E0277"]),
         ("Bump is Send", p("fn main() { is_send::<Bump>(); is_send::<Bump<8>>(); is_send::<Bump<16>>(); }"), &[]),
-        ("boxed::Box<u32> is Send and Sync (owns no arena reference)", p("fn main() { is_send::<BBox<'static, u32>>(); is_sync::<BBox<'static, u32>>(); }"), &[]),
         ("returning an arena reference from the function that owns the arena", p("fn f() -> &'static mut u32 { let b = Bump::new(); b.alloc(1u32) }\nfn main() { f(); }"), &["E0515", "E0597", "E0716"]),
         ("returning a collections::Vec from the function that owns the arena", p("fn f() -> BVec<'static, u32> { let b = Bump::new(); BVec::new_in(&b) }\nfn main() { f(); }"), &["E0515", "E0597", "E0716"]),
         ("returning a leaked Box from the function that owns the arena", p("fn f() -> &'static mut u32 { let b = Bump::new(); BBox::leak(BBox::new_in(1u32, &b)) }\nfn main() { f(); }"), &["E0515", "E0597", "E0716"]),
